@@ -5,6 +5,7 @@ import (
 	"fmt"
 	"go/types"
 	"math/big"
+	"regexp"
 	"sort"
 	"strconv"
 	"strings"
@@ -924,6 +925,55 @@ func init() {
 	I["strings.Index"] = s2i(strings.Index)
 	I["strings.LastIndex"] = s2i(strings.LastIndex)
 	I["strings.Count"] = s2i(strings.Count)
+	I["strings.TrimLeft"] = s2s(strings.TrimLeft)
+	I["strings.TrimRight"] = s2s(strings.TrimRight)
+	I["strings.ContainsAny"] = s2b(strings.ContainsAny)
+	I["strings.IndexAny"] = s2i(strings.IndexAny)
+	I["strings.LastIndexAny"] = s2i(strings.LastIndexAny)
+	I["strings.Compare"] = s2i(strings.Compare)
+	I["internal/bytealg.IndexString"] = s2i(strings.Index)
+	I["internal/bytealg.CountString"] = func(e *Exec, th *Thread, fn *ssa.Function, a []Value) Value {
+		return e.intConst(64, int64(strings.Count(e.goString(a[0], "CountString"), string([]byte{byte(e.concreteInt(a[1], "byte"))}))))
+	}
+	sByte := func(f func(string, byte) int) intrinsicFn {
+		return func(e *Exec, th *Thread, fn *ssa.Function, a []Value) Value {
+			return e.intConst(64, int64(f(e.goString(a[0], fn.Name()), byte(e.concreteInt(a[1], "byte")))))
+		}
+	}
+	I["strings.IndexByte"] = sByte(strings.IndexByte)
+	I["strings.LastIndexByte"] = sByte(strings.LastIndexByte)
+	I["internal/bytealg.IndexByteString"] = sByte(strings.IndexByte)
+	I["internal/bytealg.LastIndexByteString"] = sByte(strings.LastIndexByte)
+	I["strings.IndexRune"] = func(e *Exec, th *Thread, fn *ssa.Function, a []Value) Value {
+		return e.intConst(64, int64(strings.IndexRune(e.goString(a[0], "IndexRune"), rune(e.concreteInt(a[1], "rune")))))
+	}
+	I["strings.ContainsRune"] = func(e *Exec, th *Thread, fn *ssa.Function, a []Value) Value {
+		return e.ctx.Bool(strings.ContainsRune(e.goString(a[0], "ContainsRune"), rune(e.concreteInt(a[1], "rune"))))
+	}
+	I["strings.Repeat"] = func(e *Exec, th *Thread, fn *ssa.Function, a []Value) Value {
+		return strings.Repeat(e.goString(a[0], "Repeat"), e.concreteInt(a[1], "count"))
+	}
+	I["strings.Cut"] = func(e *Exec, th *Thread, fn *ssa.Function, a []Value) Value {
+		b, af, ok := strings.Cut(e.goString(a[0], "Cut"), e.goString(a[1], "Cut"))
+		return TupleV{b, af, e.ctx.Bool(ok)}
+	}
+	I["strings.CutPrefix"] = func(e *Exec, th *Thread, fn *ssa.Function, a []Value) Value {
+		r, ok := strings.CutPrefix(e.goString(a[0], "CutPrefix"), e.goString(a[1], "CutPrefix"))
+		return TupleV{r, e.ctx.Bool(ok)}
+	}
+	I["strings.CutSuffix"] = func(e *Exec, th *Thread, fn *ssa.Function, a []Value) Value {
+		r, ok := strings.CutSuffix(e.goString(a[0], "CutSuffix"), e.goString(a[1], "CutSuffix"))
+		return TupleV{r, e.ctx.Bool(ok)}
+	}
+	I["strings.Fields"] = func(e *Exec, th *Thread, fn *ssa.Function, a []Value) Value {
+		return e.strSlice(strings.Fields(e.goString(a[0], "Fields")))
+	}
+	I["strings.SplitN"] = func(e *Exec, th *Thread, fn *ssa.Function, a []Value) Value {
+		return e.strSlice(strings.SplitN(e.goString(a[0], "SplitN"), e.goString(a[1], "SplitN"), e.concreteInt(a[2], "n")))
+	}
+	I["strings.SplitAfter"] = func(e *Exec, th *Thread, fn *ssa.Function, a []Value) Value {
+		return e.strSlice(strings.SplitAfter(e.goString(a[0], "SplitAfter"), e.goString(a[1], "SplitAfter")))
+	}
 	I["strings.Split"] = func(e *Exec, th *Thread, fn *ssa.Function, a []Value) Value {
 		return e.strSlice(strings.Split(e.goString(a[0], "Split"), e.goString(a[1], "Split")))
 	}
@@ -1135,10 +1185,25 @@ func init() {
 		return p
 	}
 	I["regexp.Compile"] = func(e *Exec, th *Thread, fn *ssa.Function, a []Value) Value {
+		if src, ok := a[0].(string); ok {
+			if _, err := regexp.Compile(src); err != nil {
+				return TupleV{e.zero(fn.Signature.Results().At(0).Type()), e.newError("error parsing regexp: "+err.Error(), nil)}
+			}
+		}
 		var cell Value = e.zero(fn.Signature.Results().At(0).Type().(*types.Pointer).Elem())
 		p := &cell
 		e.regexps[p] = e.goString(a[0], "regexp source")
 		return TupleV{p, IfaceV{}}
+	}
+	// matching a concrete subject against a concrete expression is decided by the
+	// real regexp package (no symbolic strings reach it; goString refuses them)
+	I["(*regexp.Regexp).MatchString"] = func(e *Exec, th *Thread, fn *ssa.Function, a []Value) Value {
+		src := e.goString(e.regexps[a[0].(*Value)], "regexp source")
+		re, err := regexp.Compile(src)
+		if err != nil {
+			panic(pathAbort{"error", "regexp model: handle with uncompilable source " + src})
+		}
+		return e.ctx.Bool(re.MatchString(e.goString(a[1], "regexp subject")))
 	}
 	I["(*regexp.Regexp).String"] = func(e *Exec, th *Thread, fn *ssa.Function, a []Value) Value {
 		return e.regexps[a[0].(*Value)]
